@@ -124,3 +124,32 @@ theorem occSegs_eq_occupied {lo : Nat} {ps : Segs} (ok : Ok lo ps) (a n : Nat) :
     rw [← Nat.add_assoc, occSegs_succ ok a (a + n) (by omega), ih, occupied_succ]
 
 end Trion.Map
+
+namespace Trion.Map
+open Trion.Dict
+
+/-- `put` on a well-formed map, fitting below 2^32: return count, invariant, dictionary -/
+theorem put_refines_aux (ps : Segs) (a : Nat) (d : List UInt8) (inv : MInv ps)
+    (h : a + d.length ≤ 4294967296) :
+    (put ps a d).1 = .ok (fresh (abs ps) a d.length) ∧
+    MInv (put ps a d).2 ∧ abs (put ps a d).2 = Dict.put (abs ps) a d := by
+  unfold put
+  cases d with
+  | nil =>
+    refine ⟨by simp [fresh], inv, ?_⟩
+    funext k
+    simp [Dict.put]; omega
+  | cons b t =>
+    have hne : (b :: t) ≠ [] := by simp
+    simp only [List.isEmpty_cons, Bool.false_eq_true, if_false]
+    rw [if_neg (by unfold u32Max; simp only [List.length_cons] at h ⊢; omega)]
+    obtain ⟨i1, i2⟩ := putGo_spec ps 0 a (b :: t) inv (Nat.zero_le _) hne h
+    refine ⟨?_, i1, funext i2⟩
+    have hc := putGo_fst ps 0 a (b :: t) inv hne
+    have ho := occSegs_eq_occupied inv a (b :: t).length
+    have hf := fresh_add_occupied (abs ps) a (b :: t).length
+    show Except.ok ((b :: t).length - (putGo ps a (b :: t)).1) = _
+    congr 1
+    omega
+
+end Trion.Map
